@@ -66,13 +66,14 @@ def setkey_oracle(env, variant, alg, kalg, priv):
     return ok
 
 
-def config_post_table(prog, env, sig_lens=(0, 1, 43), jwt_key='same'):
+def config_post_table(prog, env, sig_lens=(0, 1, 43), jwt_key='same', pairs=None):
     """jwt_verify_complete (-> __verify_config_post) over config.alg x key {NULL, each alg attr} x header alg x
     sig_len x claims outcome.  The claim evaluation and the signature check are replaced by recording stubs:
     the table shows what the policy layer lets through to jwt_verify_sig.
 
     jwt_key: how the caller leaves jwt->key: 'same' (== config.key, established by the caller-facts rule) or
-    'free' (independent: both NULL and the key object are tried)."""
+    'free' (independent: NULL, the key object and another key object are tried).
+    pairs: restrict to these (config.alg, key alg attr | None) pairs."""
     unit = 'libjwt/jwt-verify.c'
     prog.func(unit, 'jwt_verify_complete')
     prog.func(unit, '__verify_claims')
@@ -93,9 +94,11 @@ def config_post_table(prog, env, sig_lens=(0, 1, 43), jwt_key='same'):
     cells = []
     for calg in algs:
         for kalg in [None] + algs:
+            if pairs is not None and (calg, kalg) not in pairs:
+                continue
             for jalg in algs:
                 for sig_len in sig_lens:
-                    for jk in ((None,) if jwt_key == 'same' else ((False, True) if kalg is not None else (False,))):
+                    for jk in ((None,) if jwt_key == 'same' else ((False, True, 'other') if kalg is not None else (False, 'other'))):
                         def h_strlen(it, st, args, node, n=sig_len):
                             if isinstance(args[0], (Str, Ref)):
                                 return None
@@ -116,7 +119,10 @@ def config_post_table(prog, env, sig_lens=(0, 1, 43), jwt_key='same'):
                         else:
                             kref = Ref(mk_key(st, 'key', alg=kalg))
                             st.mem[(cfg, 'key')] = kref
-                            st.mem[(jwt, 'key')] = kref if (jk is None or jk) else NULL
+                            st.mem[(jwt, 'key')] = kref if (jk is None or jk is True) else NULL
+                        if jk == 'other':
+                            # the token object still carries a key of its own (e.g. the one stored before the callback chose another)
+                            st.mem[(jwt, 'key')] = Ref(mk_key(st, 'otherkey', alg=jalg))
                         tok = Term(('token',), ptr=True)
                         res = it.run('jwt_verify_complete', [Ref(jwt), Ref(cfg), tok, Term(('payload_len',))], st)
                         for s, rv in res:
